@@ -9,6 +9,8 @@ fn main() {
         .filter_map(|e| e.file_name().into_string().ok())
         .filter(|n| n.starts_with("b_") && n.ends_with(".rs"))
         .map(|n| n[2..n.len() - 3].to_string())
+        // a block file is registered once it defines its entry point (work in progress files are skipped)
+        .filter(|n| std::fs::read_to_string(src.join(format!("b_{}.rs", n))).map(|t| t.contains("pub fn run(")).unwrap_or(false))
         .collect();
     names.sort();
     let out = std::path::Path::new(&std::env::var("OUT_DIR").unwrap()).join("blocks.rs");
